@@ -566,6 +566,17 @@ class Unit:
                 self._do_struct(parts[1], parts[2], parts[3:]); i += 1; continue
             if d == "impl":
                 self._do_impl(parts[1], " ".join(parts[2:])); i += 1; continue
+            if d == "arm":
+                j = i + 1
+                block = []
+                while j < len(vc) and vc[j].strip() != "//@end":
+                    block.append((j + 1, vc[j])); j += 1
+                if j >= len(vc):
+                    raise AnchorLost("%s:%d: //@arm without //@end" % (self.vc_path, i + 1))
+                self._do_arm(parts[1], parts[2], parts[3], parts[4:], block)
+                i = j + 1
+                raw_label = None
+                continue
             if d == "fn":
                 j = i + 1
                 block = []
@@ -666,6 +677,156 @@ class Unit:
         self.dropped.append("impl %s (%s:%d): emitted verbatim outside verus!{} - compiled, NOT verified" % (
             name, rel, s.line_of(s.toks[it["kw"]].start)))
         self.counts.add("items.impl-unverified")
+
+    # ---- one arm of a `match request.clone() { Request::V {..} => <expr>, ... }` dispatcher, as a function (rule R10)
+    def _do_arm(self, rel, fn_name, variant, opts, block):
+        """R10: the arm `Request::<variant> { bindings } => <expr>` of fn <fn_name> becomes
+              fn arm_<variant><F: Fn..>(bindings.., dbs: &Arc<Databases>, client: &Client, opp: &F) -> (r: Response) { <expr> }
+        where the closure literal handed to the guard (argument number `closure=N` of the guard call) is replaced by the
+        abstract closure `opp`.  The arm's guard call, its key argument and its PermissionKind stay verbatim."""
+        s = source(rel)
+        it = s.find("fn", fn_name, None)
+        toks = s.toks
+        lo, hi = it["body_open"], it["end"]
+        code = [k for k in range(lo, hi) if toks[k].kind in CODE]
+        # locate `Request :: variant`
+        pos = None
+        for ci in range(len(code) - 4):
+            a, b, c, d2 = (toks[code[ci + x]] for x in range(4))
+            if a.text == "Request" and b.text == ":" and c.text == ":" and d2.text == variant:
+                nx = toks[code[ci + 4]]
+                if nx.text in ("{", "=", "("):
+                    pos = ci; break
+        if pos is None:
+            raise AnchorLost("%s: fn %s has no arm Request::%s" % (rel, fn_name, variant))
+        k = code[pos + 4]
+        bindings = []
+        if toks[k].text == "{":
+            close = match_close(toks, k)
+            inner = [t for t in toks[k + 1:close] if t.kind in CODE]
+            cur = []
+            groups = []
+            for t in inner:
+                if t.text == ",":
+                    groups.append(cur); cur = []
+                else:
+                    cur.append(t)
+            if cur: groups.append(cur)
+            for g in groups:
+                if not g: continue
+                field = g[0].text
+                bind = g[2].text if len(g) >= 3 and g[1].text == ":" else field
+                bindings.append((field, bind))
+            k = close + 1
+        # `=>`
+        while toks[k].kind not in CODE: k += 1
+        if not (toks[k].text == "=" and toks[k + 1].text == ">"):
+            raise AnchorLost("%s: arm Request::%s: expected `=>`" % (rel, variant))
+        k += 2
+        while toks[k].kind not in CODE: k += 1
+        start = k
+        # arm expression: a block, or up to the `,` at depth 0
+        if toks[k].text == "{":
+            end = match_close(toks, k)
+        else:
+            depth, j = 0, k
+            while j < hi:
+                t = toks[j]
+                if t.kind == "p" and t.text in "([{": depth += 1
+                elif t.kind == "p" and t.text in ")]}":
+                    if depth == 0: break
+                    depth -= 1
+                elif t.kind == "p" and t.text == "," and depth == 0:
+                    break
+                j += 1
+            end = j - 1
+            while toks[end].kind not in CODE: end -= 1
+        expr = s.text_of(start, end)
+        src_line = s.line_of(toks[start].start)
+        # field types from `enum Request`
+        ftypes = {}
+        bo = source("src/lib/bo.rs")
+        en = bo.find("enum", "Request")
+        et = bo.toks
+        ecode = [q for q in range(en["body_open"], en["end"]) if et[q].kind in CODE]
+        for ci in range(len(ecode) - 1):
+            if et[ecode[ci]].text == variant and et[ecode[ci + 1]].text == "{":
+                vc_close = match_close(et, ecode[ci + 1])
+                txt = bo.text_of(ecode[ci + 1] + 1, vc_close - 1)
+                for part in re.split(r",\s*\n|,\s*$", txt.strip()):
+                    if ":" in part:
+                        fname, ftype = part.split(":", 1)
+                        ftypes[fname.strip()] = ftype.strip().rstrip(",")
+                break
+        closure_arg = int(next((o.split("=", 1)[1] for o in opts if o.startswith("closure=")), "0"))
+        guard = next((o.split("=", 1)[1] for o in opts if o.startswith("guard=")), None)
+        new_expr = expr
+        if closure_arg:
+            etoks = lex(new_expr)
+            gi = next((q for q, t in enumerate(etoks) if t.kind == "id" and t.text == guard), None)
+            if gi is None:
+                raise AnchorLost("%s: arm Request::%s does not call `%s` (the guard this contract is about)" % (rel, variant, guard))
+            op = gi + 1
+            while etoks[op].kind not in CODE: op += 1
+            if etoks[op].text != "(":
+                raise AnchorLost("%s: arm Request::%s: `%s` is not called" % (rel, variant, guard))
+            cl = match_close(etoks, op)
+            args, cur, depth = [], [], 0
+            for q in range(op + 1, cl):
+                t = etoks[q]
+                if t.kind == "p" and t.text in "([{": depth += 1
+                elif t.kind == "p" and t.text in ")]}": depth -= 1
+                if t.kind == "p" and t.text == "," and depth == 0:
+                    args.append(cur); cur = []
+                else:
+                    cur.append(t)
+            if any(t.kind in CODE for t in cur): args.append(cur)
+            if closure_arg > len(args):
+                raise AnchorLost("%s: arm Request::%s: guard call has %d argument(s), closure=%d" % (rel, variant, len(args), closure_arg))
+            dropped = re.sub(r"\s+", " ", toks_text(args[closure_arg - 1]))[:300]
+            self.dropped.append("arm Request::%s (%s:%d): R10 closure literal handed to `%s` replaced by the abstract closure `opp`; dropped text: %s" % (
+                variant, rel, src_line, guard, dropped))
+            args[closure_arg - 1] = [Tok("p", " opp", 0, 0)]
+            new_expr = toks_text(etoks[:op + 1]) + ",".join(toks_text(a) for a in args) + toks_text(etoks[cl:])
+            self.counts.add("R10.arm-closure-abstracted")
+        new_expr = rewrite_builtin(new_expr, self.counts, mutable=False)
+        if "strfrom" in opts:
+            new_expr = apply_literal_rewrite(new_expr, "String::from(", "shim_string_from(", -1, self.counts, name_hint(variant))
+        ftype = "Fn() -> Response" if guard == "apply_if_auth" else "Fn(&Database) -> Response"
+        params = []
+        for field, bind in bindings:
+            if bind == "_": continue
+            if field not in ftypes:
+                raise AnchorLost("%s: arm Request::%s: field `%s` not found in enum Request" % (rel, variant, field))
+            params.append("%s: %s" % (bind, ftypes[field]))
+        name = "arm_" + re.sub(r"(?<!^)(?=[A-Z])", "_", variant).lower()
+        sig = "fn %s<F: %s>(%s%sdbs: &Arc<Databases>, client: &Client, opp: &F) -> (r: Response)" % (
+            name, ftype, ", ".join(params), ", " if params else "")
+        owner_name = name
+        self.emit(sig, owner_name, None, "sig", src="%s:%d" % (rel, src_line))
+        label, labels = None, []
+        ghost_lines, in_ghost = [], False
+        for lno, ln in block:
+            if ln.strip() == "//@insert start":
+                in_ghost = True; continue
+            if in_ghost:
+                ghost_lines.append((lno, ln)); continue
+            m = re.match(r"\s*//\s*\[([^\]]*)\]", ln)
+            if m:
+                label = m.group(1).strip() or None
+                if label and label not in labels: labels.append(label)
+            self.emit(ln, owner_name, label, "spec", src="%s:%d" % (os.path.basename(self.vc_path), lno))
+        self.emit("{", owner_name, None, "glue")
+        for lno, ln in ghost_lines:
+            self.emit(ln, owner_name, None, "ghost", src="%s:%d" % (os.path.basename(self.vc_path), lno))
+            self.counts.add("ghost-insertions")
+        for q, bl in enumerate(new_expr.split("\n")):
+            self.emit(bl, owner_name, None, "body", src="%s:%d" % (rel, src_line + q))
+        self.emit("}", owner_name, None, "glue")
+        self.functions.append(dict(path=name, file=rel, line=src_line, external=False, labels=labels, mutself=False))
+        self.diffs[name] = "".join(difflib.unified_diff(expr.splitlines(True), new_expr.splitlines(True),
+                                                        "%s:arm Request::%s (source)" % (rel, variant), "extracted", n=0))
+        self.counts.add("items.arm")
 
     # ---- functions
     def _do_fn(self, rel, path, opts, block):
@@ -934,6 +1095,10 @@ def _stmts_end(text, start, count):
                 i += 1; break
             i += 1
     return code[i - 1].end
+
+
+def name_hint(v):
+    return "arm Request::%s" % v
 
 
 def _tail_span(body, path):
